@@ -9,5 +9,5 @@ mkdir -p build work evidence/replays
 mkdir -p build/ocaml
 ( cd build/ocaml && timeout 600 coqc -Q ../../coq DT ../../coq/Extract/Extract.v \
   && cp ../../ocaml/driver.ml . && timeout 600 ocamlfind ocamlopt -O2 -w -a -o driver model.mli model.ml driver.ml )
-( cd harness && cp /repo/go.sum . && go build -tags verif -o ../build/vh . && go vet -tags verif . )
+( cd harness && cp /repo/go.sum . && go build -tags verif -o ../build/vh . && go vet -tags verif . ./racecmd )
 echo "setup ok"
